@@ -62,7 +62,7 @@ $$(BUILD)/obj/$(1)/main.$(2).$(3).o: sim/main.cpp sim/sim.h sim/core.h $$(BUILD)
 $$(BUILD)/bin/$(1).$(2).$(3): $$(addprefix $$(OBJ_$(1))/lib/,$$(COMMON_SRCS:.c=.o)) \
     $$(OBJ_$(1))/lib/patomic-$(2).o $$(OBJ_$(1))/lib/pspinlock-$(2).o $$(OBJ_$(1))/lib/prwlock-$(3).o \
     $$(addprefix $$(OBJ_$(1))/sim/,$$(filter-out main.o,$$(SIM_SRCS_$(1):.cpp=.o))) $$(BUILD)/obj/$(1)/main.$(2).$(3).o \
-    $$(addprefix $$(OBJ_$(1))/harness/,$$(HARNESS_SRCS:.cpp=.o)) | $$(BUILD)/syms.$(1).ok
+    $$(addprefix $$(OBJ_$(1))/harness/,$$(HARNESS_SRCS:.cpp=.o)) | $$(BUILD)/syms.$(1).ok $$(BUILD)/run/libvpprobe.so
 	@mkdir -p $$(dir $$@)
 	@echo "  LD $$@"; $$(CXX) -o $$@ $$^ $$(if $$(filter T,$(1)),-fsanitize=undefined,-fsanitize=address,undefined) -ldl -lrt -lm
 endef
@@ -84,7 +84,11 @@ $(BUILD)/syms.A.ok: $(ALL_LIB_OBJS_A) tools/check_syms.py tools/redefine.syms to
 BINS_T := $(BUILD)/bin/T.c11.posix $(BUILD)/bin/T.sync.posix $(BUILD)/bin/T.sim.posix $(BUILD)/bin/T.c11.general
 BINS_A := $(BUILD)/bin/A.c11.posix $(BUILD)/bin/A.c11.general
 
-all: $(BINS_T) $(BINS_A)
+all: $(BINS_T) $(BINS_A) $(BUILD)/run/libvpprobe.so
+
+$(BUILD)/run/libvpprobe.so: sim/probe_module.c
+	@mkdir -p $(dir $@)
+	@echo "  CC probe_module.c"; $(CC) -shared -fPIC -O1 -o $@ $<
 binsT: $(BINS_T)
 binsA: $(BINS_A)
 
